@@ -401,10 +401,6 @@ func Replay(rf *ReplayFile, path string, tries int, workDir string) (string, str
 	repl := map[string]string{}
 	i := 0
 	for virt, content := range ov {
-		// only the package under replay needs the files, but the overlay may cover all
-		if !strings.HasPrefix(virt, filepath.Join(RepoRoot, rf.Pkg)+"/") {
-			continue
-		}
 		real := filepath.Join(workDir, fmt.Sprintf("ov%d_%s", i, filepath.Base(virt)))
 		i++
 		if err := os.WriteFile(real, content, 0o644); err != nil {
@@ -476,9 +472,6 @@ func SelfTest(prop string, cases []Case, tries int, workDir string) (int, []stri
 			repl := map[string]string{}
 			i := 0
 			for virt, content := range ov {
-				if !strings.HasPrefix(virt, filepath.Join(RepoRoot, k.pkg)+"/") {
-					continue
-				}
 				real := filepath.Join(dir, fmt.Sprintf("ov%d_%s", i, filepath.Base(virt)))
 				i++
 				os.WriteFile(real, content, 0o644)
